@@ -51,6 +51,21 @@ def replay_file(path):
                 break
         else:
             detail = "did not recur in 100 free-running repetitions"
+    elif eng == "unsimulated":
+        import re, subprocess
+        acv = sc.build("./cmd", "acv-plain", plain=True) if os.path.isdir(sc.plain) else None
+        if acv is None:
+            sc2 = vlib.Scratch()
+            sc2.prepare(plain=True)
+            acv = sc2.build("./cmd", "acv-plain", plain=True)
+        ppath = remap(sc, rf["profile"]) if os.path.isabs(rf["profile"]) else os.path.join(sc.src, rf["profile"])
+        outs = set()
+        for _ in range(max(20, rf.get("runs", 6) * 3)):
+            argv = [acv, rf["what"], ppath] + ([remap(sc, rf["data"])] if rf["what"] == "validate" else [])
+            p = subprocess.run(argv, capture_output=True, timeout=300)
+            outs.add((p.returncode, hashlib.sha256(re.sub(rb'"dateCreated": "[^"]*"', b'"dateCreated": "T"', p.stdout)).hexdigest()))
+        again = len(outs) > 1
+        detail = "%d distinct outputs of the uninstrumented binary" % len(outs)
     elif eng == "C-generate":
         simacv = sc.build("./cmd", "simacv")
         prof = {"id": rf["profile_id"], "path": remap(sc, rf["profile"]) if os.path.isabs(rf["profile"]) else rf["profile"]}
